@@ -42,7 +42,16 @@ EXPLANATION = (
     "(or a {True:, False:} table indexed with a boolean) give the selected value, fields / one-expression properties and methods of a "
     "freshly built NamedTuple / dataclass record give the constructor argument; values are additionally followed through table rows "
     "(loop variables over a constant table, TABLE[key] with the keys possible under the valuation, next(generator, default)) and a "
-    "test whose value is a constant chosen by the marker test (a classification record / row) counts as the marker test itself. "
+    "test whose value is a constant chosen by the marker test (a classification record / row, also through a one-expression property "
+    "of the record) counts as the marker test itself. Further exact normal forms: a table written inside the function (a local bound "
+    "once to a display of constants / record constructors and only iterated) is iterated as the display (the flattener then writes "
+    "the loop / any() / next() out), locals and module names bound once to literals (also by `a, b = x, y`) are the literals, "
+    "one-expression helpers called inside comprehensions are applied in place, TABLE[name](args) / TABLE.get(name, d) over string keys "
+    "become the entries chosen by name == key (the lookup as written stays as last alternative unless the name can only hold keys), a "
+    "conditional expression with a pure test and a helper call in a branch splits its statement, `xs = xs + [e]` / `xs = [*xs, e]` on a "
+    "list nothing else observes is `xs += [e]`, single-use aliases of generator expressions / generator helpers are put where they are "
+    "consumed, comprehension variables are renamed apart from other bindings. The text in which the marker is searched must come "
+    "from what the function was given (a search in a constant / in the marker itself is not the found-plan test). "
     "C19.regex: the step pattern is the one that reaches the finditer / findall call (re.<fn>(pattern, ...) or a compiled pattern; "
     "literal, module or class constant) whose matches become the returned steps; its regex AST (re._parser) is inspected: the step "
     "prefix is a digit followed by ':', the capture group is a repeat over a character class none of whose members can match a line "
@@ -264,7 +273,21 @@ class _Model:
             sc = U.scan_of(self._plain, base.node, base.mod)
             if sc is None or sc.fn != "search" or sc.pattern is None or sc.extra_positional or not self._is_marker_text(sc.pattern, sc.pattern_mod):
                 return False
+            if base.mod is None and not self._reads_the_log(sc.text):
+                return False
         return True
+
+    def _reads_the_log(self, text: Optional[ast.AST]) -> bool:
+        """the searched text comes from what the function was given (the content of the file at the path parameter), not from a
+        constant or from the marker itself"""
+        if text is None:
+            return False
+        try:
+            tr = self.p.trace(text)
+        except (KeyError, RecursionError):
+            return not isinstance(text, ast.Constant)
+        params = {x for x in self.f.params if x != self.f.self_name}
+        return any(x[0].startswith("param:") and x[0][6:] in params for x in tr)
 
     def _is_log_text(self, e: ast.AST) -> bool:
         """the expression is (an alias of) the text in which the marker is searched"""
@@ -299,7 +322,8 @@ class _Model:
                 if isinstance(l, (ast.Name, ast.Call, ast.NamedExpr)) and self._is_marker_search(l):
                     return "found" if isinstance(op, (ast.IsNot, ast.NotEq)) else "!found"
                 return None
-            if isinstance(op, (ast.In, ast.NotIn)) and not isinstance(r_, (ast.List, ast.Tuple, ast.Set, ast.Dict)) and self._is_marker_text(l):
+            if isinstance(op, (ast.In, ast.NotIn)) and not isinstance(r_, (ast.List, ast.Tuple, ast.Set, ast.Dict)) and self._is_marker_text(l) \
+                    and self._reads_the_log(r_):
                 return "found" if isinstance(op, ast.In) else "!found"
             c, x, flip = U.const_int(r_), l, False
             if c is None:
@@ -310,7 +334,7 @@ class _Model:
                 for leaf in leaves:
                     b = leaf.node
                     if not (leaf.mod is None and isinstance(b, ast.Call) and isinstance(b.func, ast.Attribute) and b.func.attr in ("find", "rfind", "count")
-                            and len(b.args) == 1 and not b.keywords and self._is_marker_text(b.args[0])):
+                            and len(b.args) == 1 and not b.keywords and self._is_marker_text(b.args[0]) and self._reads_the_log(b.func.value)):
                         return None
                     t = type(op)
                     if flip:
@@ -526,6 +550,9 @@ def _ff(repo: Repo) -> _Model:
                 raise _MarkerTestChanged(c, f"re.{sc.fn} only finds the marker at the very start of the log")
             if sc is not None and sc.fn == "search" and sc.extra_positional and sc.pattern is not None and m._is_marker_text(sc.pattern, sc.pattern_mod):
                 raise _MarkerTestChanged(c, "the marker is searched in a part of the log only")
+            if sc is not None and sc.fn == "search" and not sc.extra_positional and sc.pattern is not None and m._is_marker_text(sc.pattern, sc.pattern_mod) \
+                    and not m._reads_the_log(sc.text):
+                raise _MarkerTestChanged(c, "the marker is searched in a text that is not the planner log the function read")
             if isinstance(c.func, ast.Attribute) and c.func.attr in ("startswith", "endswith") and len(c.args) == 1 and m._is_marker_text(c.args[0]):
                 raise _MarkerTestChanged(c, f"str.{c.func.attr} only finds the marker at one end of the log")
         raise AnalysisError("get_solving_status: found-plan test not recognised (no test of a search for the "
